@@ -1063,6 +1063,11 @@ func checkC15(w *World, run *simrt.Run) {
 
 func genC04T(r *simrt.Rand, tier string, idx uint64) *Plan {
 	p := genTBase(r, "c04t")
+	if idx%2 == 1 {
+		// through a load-balancing Client on top of the Transport: it must not retry either
+		p.Params["via_client"] = 1
+		p.Params["sched"] = r.Intn(3)
+	}
 	ns := len(p.Servers)
 	nc := 1 + r.Intn(4)
 	for c := 0; c < nc; c++ {
